@@ -47,3 +47,9 @@ static void ref_init_all(REF_TP_T *tp)
 {
     ref_init_task_C.taskpool = (parsec_taskpool_t *)tp; chain_C_internal_init(NULL, &ref_init_task_C);
 }
+
+/* make_key of class c: direct calls (no function pointer read from a table indexed symbolically) */
+static parsec_key_t ref_make_key(const REF_TP_T *tp, int c, const parsec_assignment_t *l)
+{
+    (void)c; return __jdf2c_make_key_C((const parsec_taskpool_t *)tp, l);
+}
